@@ -53,13 +53,112 @@ class StubCall(Stub):
         self.f = f
 
 
+class Record(Stub):
+    """An instance of a plain record class of the analysed code (NamedTuple / dataclass with annotated fields only)."""
+    _settable = True
+
+    def __init__(self, cls: "RecordClass", values: Dict[str, Any]):
+        object.__setattr__(self, "_cls", cls)
+        for k, v in values.items():
+            object.__setattr__(self, k, v)
+
+    def _values(self):
+        return [getattr(self, f) for f in self._cls.fields]
+
+    def __iter__(self):
+        if not self._cls.is_tuple:
+            raise Unsupported(f"iteration over a {self._cls.name} record")
+        return iter(self._values())
+
+    def __getitem__(self, i):
+        if not self._cls.is_tuple:
+            raise Unsupported(f"subscript of a {self._cls.name} record")
+        return self._values()[i]
+
+    def _abs_len(self):
+        return len(self._cls.fields)
+
+    def _replace(self, **kw):
+        d = {f: getattr(self, f) for f in self._cls.fields}
+        d.update(kw)
+        return Record(self._cls, d)
+
+    def _asdict(self):
+        return {f: getattr(self, f) for f in self._cls.fields}
+
+    def __eq__(self, o):
+        if isinstance(o, Record):
+            return o._cls is self._cls and o._values() == self._values()
+        if self._cls.is_tuple and isinstance(o, tuple):
+            return tuple(self._values()) == o
+        return NotImplemented
+
+    def __hash__(self):
+        return hash(tuple(map(repr, self._values())))
+
+    def __repr__(self):
+        return f"{self._cls.name}({', '.join(f'{f}={getattr(self, f)!r}' for f in self._cls.fields)})"
+
+
+class RecordClass(Stub):
+    def __init__(self, name: str, fields: List[str], defaults: Dict[str, Any], is_tuple: bool):
+        self.name, self.fields, self.defaults, self.is_tuple = name, fields, defaults, is_tuple
+        self.__name__ = name
+
+    def _abs_call(self, *args, **kwargs):
+        if len(args) > len(self.fields):
+            raise InterpRaised("TypeError", f"{self.name}() takes {len(self.fields)} fields")
+        vals = dict(zip(self.fields, args))
+        for k, v in kwargs.items():
+            if k not in self.fields or k in vals:
+                raise InterpRaised("TypeError", f"{self.name}() got an unexpected or repeated field {k}")
+            vals[k] = v
+        for f in self.fields:
+            if f not in vals:
+                if f not in self.defaults:
+                    raise InterpRaised("TypeError", f"{self.name}() missing field {f}")
+                vals[f] = self.defaults[f]
+        return Record(self, vals)
+
+
+def record_class(cnode: ast.ClassDef) -> Optional[RecordClass]:
+    """A RecordClass when `cnode` is a NamedTuple or a @dataclass whose body holds nothing but annotated fields with literal defaults."""
+    bases = {unparse(b).split(".")[-1] for b in cnode.bases}
+    decos = {unparse(d.func if isinstance(d, ast.Call) else d).split(".")[-1] for d in cnode.decorator_list}
+    is_tuple = "NamedTuple" in bases
+    if not is_tuple and "dataclass" not in decos:
+        return None
+    if (bases - {"NamedTuple"}) or (decos - {"dataclass"}):
+        return None
+    fields, defaults = [], {}
+    for s in cnode.body:
+        if isinstance(s, ast.Expr) and isinstance(s.value, ast.Constant):
+            continue
+        if isinstance(s, ast.Pass):
+            continue
+        if isinstance(s, ast.AnnAssign) and isinstance(s.target, ast.Name):
+            fields.append(s.target.id)
+            if s.value is not None:
+                try:
+                    defaults[s.target.id] = ast.literal_eval(s.value)
+                except (ValueError, TypeError, SyntaxError):
+                    return None
+            continue
+        return None
+    return RecordClass(cnode.name, fields, defaults, is_tuple)
+
+
 BUILTINS: Dict[str, Any] = {
     "len": len, "range": range, "sorted": sorted, "list": list, "set": set, "tuple": tuple, "dict": dict, "max": max, "min": min,
     "sum": sum, "enumerate": enumerate, "zip": zip, "str": str, "int": int, "float": float, "abs": abs, "any": any, "all": all,
     "bool": bool, "reversed": reversed, "frozenset": frozenset, "True": True, "False": False, "None": None, "isinstance": isinstance,
     "iter": iter, "next": next, "slice": slice, "getattr": getattr, "round": round, "repr": repr, "type": type,
 }
-MODULES = {"itertools": {"product": itertools.product, "combinations": itertools.combinations, "chain": itertools.chain, "permutations": itertools.permutations}}
+class ModuleTable(dict):
+    """Stand-in for an imported standard-library module: the names of it the interpreter knows."""
+
+
+MODULES = {"itertools": ModuleTable({"product": itertools.product, "combinations": itertools.combinations, "chain": itertools.chain, "permutations": itertools.permutations})}
 _BIN = {ast.Add: operator.add, ast.Sub: operator.sub, ast.Mult: operator.mul, ast.Div: operator.truediv, ast.FloorDiv: operator.floordiv,
         ast.Mod: operator.mod, ast.Pow: operator.pow, ast.BitAnd: operator.and_, ast.BitOr: operator.or_, ast.BitXor: operator.xor}
 _CMP = {ast.Eq: operator.eq, ast.NotEq: operator.ne, ast.Lt: operator.lt, ast.LtE: operator.le, ast.Gt: operator.gt, ast.GtE: operator.ge,
@@ -377,12 +476,14 @@ class Interp:
             return self.comp(e, env)
         if isinstance(e, ast.Attribute):
             base = self.ev(e.value, env)
-            if isinstance(base, dict) and e.value.__class__ is ast.Name and e.value.id in MODULES:
+            if isinstance(base, ModuleTable):
                 if e.attr in base:
                     return base[e.attr]
                 raise Unsupported(unparse(e))
             if e.attr in FORBIDDEN_METHODS or e.attr.startswith("__"):
                 raise Unsupported("attribute " + e.attr)
+            if base is itertools.chain and e.attr == "from_iterable":
+                return StubCall(lambda xs: [y for x in self.iterate(xs) for y in self.iterate(x)])
             if isinstance(base, PURE_TYPES):
                 return getattr(base, e.attr)
             if isinstance(base, Stub):
